@@ -6,9 +6,14 @@
   * math/big is `Nat`; `secp256k1.BaseMultiply / BaseMultiplyAdd / ParsePubkey` are the reference curve
     of Base/Secp.lean (textbook affine arithmetic) — gocoin's limb code is the subject of C08.
   * A Go panic is `.error .panic`. `.error .outside` marks inputs on which the Go code produces
-    *junk without failing* (the point at infinity is serialised from stale coordinates; an x that is
-    not on the curve is lifted to a bogus y; keys of the wrong length): the model does not mirror junk,
-    the harness keeps its generators out of that region and says so in the evidence.
+    *junk without failing* (the point at infinity is serialised from stale coordinates; keys of the
+    wrong length): the model does not mirror the junk VALUE; the harness still runs the real code there
+    and judges it by the reference predicate wherever BIP32 defines a result.
+  * A public key that does not parse (first byte not 02/03, x ≥ p, x³+7 no square) is NOT outside:
+    since the `fix:` commits for finding `xpub-noncanonical-x` `ByteCheck` refuses it (it used to ignore
+    `ParsePubkey`'s verdict and asked `IsValid()` of the point built from x mod p) and the public branch of
+    `Child` panics when `BaseMultiplyAdd` reports failure (it used to return a key of 33 zero bytes).
+    `DeriveNextPublic` itself still returns the zero-filled buffer — mirrored exactly.
   * The version constants, the hardened threshold and the "Bitcoin seed" key are REGENERATED from the
     source (Gen/HDConsts.lean).
 -/
@@ -53,17 +58,25 @@ def publicFromPrivate (priv : Bytes) (compressed : Bool) : Option Bytes :=
 def deriveNextPrivate (p s : Bytes) : Bytes :=
   beBytes 32 ((beVal p + beVal s) % Secp.n)
 
-/-- `btc.DeriveNextPublic(public, secret)` for a 33-byte `public`: secret·G + P, compressed.
-    Wrong first byte → `ParsePubkey` fails → the zero-filled buffer is returned. -/
-def deriveNextPublic (pub secret : Bytes) : Except Fail Bytes :=
+/-- `secp256k1.BaseMultiplyAdd(public, secret, out)` for a 33-byte `public`: `.ok none` = it returns false
+    (`ParsePubkey` refuses: first byte not 02/03, x ≥ p, or x³+7 without a square root) and leaves `out`
+    untouched; `.ok (some b)` = true with `out` = secret·G + P compressed. -/
+def baseMultiplyAdd (pub secret : Bytes) : Except Fail (Option Bytes) :=
   if pub.length ≠ 33 then .error .outside
-  else if pub.headD 0 ≠ 2 ∧ pub.headD 0 ≠ 3 then .ok (List.replicate 33 0)
   else match Secp.parsePubkey pub with
-    | none => .error .outside                       -- x ≥ p or x not on the curve: Go computes junk
+    | none => .ok none
     | some P =>
       match serPoint true (Secp.add (Secp.mul (beVal secret) Secp.G) (some P)) with
-      | none => .error .outside                     -- infinity
-      | some b => .ok b
+      | none => .error .outside                     -- infinity: Go serialises stale coordinates
+      | some b => .ok (some b)
+
+/-- `btc.DeriveNextPublic(public, secret)` for a 33-byte `public`: secret·G + P, compressed. It ignores
+    `BaseMultiplyAdd`'s verdict: for a key that does not parse the zero-filled buffer is returned. -/
+def deriveNextPublic (pub secret : Bytes) : Except Fail Bytes :=
+  match baseMultiplyAdd pub secret with
+  | .error e => .error e
+  | .ok none => .ok (List.replicate 33 0)
+  | .ok (some b) => .ok b
 
 /-- `(*HDWallet).Child(i)` -/
 def child (C : WalletCrypto) (w : HDWallet) (i : Nat) : Except Fail HDWallet :=
@@ -79,9 +92,10 @@ def child (C : WalletCrypto) (w : HDWallet) (i : Nat) : Except Fail HDWallet :=
     if i ≥ hardenedFrom then .error .panic
     else
       let ha := C.hmac512 w.chCode (w.key ++ beBytes 4 i)
-      match deriveNextPublic w.key (ha.take 32) with
+      match baseMultiplyAdd w.key (ha.take 32) with
       | .error e => .error e
-      | .ok nk =>
+      | .ok none => .error .panic                   -- "HDWallet.Child(): Invalid public key"
+      | .ok (some nk) =>
         .ok { pfx := w.pfx, depth := (w.depth + 1) % 256, checksum := (C.hash160 w.key).take 4, idx := i,
               chCode := ha.drop 32, key := nk }
   else .error .panic
@@ -100,8 +114,9 @@ def toString (C : WalletCrypto) (w : HDWallet) : Bytes := Base58.encode (seriali
 inductive ParseErr | length | pfx | pubkey | checksum
   deriving Repr, DecidableEq
 
-/-- `ByteCheck` (the public-key test is the strict one of the reference curve; gocoin's lenient
-    `ParsePubkey` + `IsValid` differs only for x ≥ p, which the harness keeps out) -/
+/-- `ByteCheck`: length, known version bytes and — for public versions — `ParsePubkey` of the key bytes
+    must succeed (strict SEC1 parsing: 02/03, x < p, x³+7 a square). This IS the code since the `fix:`
+    commit for finding `xpub-noncanonical-x`; the harness's corpus holds the x ≥ p witnesses. -/
 def byteCheck (dbin : Bytes) : Option ParseErr :=
   if dbin.length ≠ 82 then some .length
   else
